@@ -193,9 +193,16 @@ def check_alert(case):
     if not vconn.closed:
         return bad("not-closed-after-fatal-alert:" + where, "",
                    labels=labels)
-    if vconn.session is not None and vconn.session.resumable:
+    if usable(vconn.session):
         return bad("resumable-after-fatal-alert:" + where, "", labels=labels)
     return good(labels=labels)
+
+
+def usable(sess):
+    """Would this session still be offered / accepted for resumption: the
+    flag and the library's own notion (valid() is what the client consults
+    before offering a session and the cache before handing one out)."""
+    return sess is not None and bool(sess.resumable or sess.valid())
 
 
 def acceptable_transport_exc(e):
@@ -265,7 +272,7 @@ def check_hs(case):
     if not vconn.closed:
         return bad("not-closed-after-transport-fault:" + where, "",
                    labels=labels)
-    if vconn.session is not None and vconn.session.resumable:
+    if usable(vconn.session):
         return bad("resumable-after-transport-fault:" + where,
                    "fault at %d of %d" % (off, total), labels=labels)
     labels.append("victim-exc=" + describe_exc(e))
@@ -421,7 +428,7 @@ def check_data(case):
             still = cache[sess.sessionID]
         except KeyError:
             still = None
-        if still is not None and still.resumable:
+        if usable(still):
             return bad("cached-session-resumable-after-failure:" + where,
                        "connection %s; the session cache still returns a "
                        "resumable session for its id" % fs, labels=labels)
@@ -468,7 +475,7 @@ def check_data(case):
                        "final read: %s" % fs, labels=labels)
         if not rconn.closed:
             return bad("not-closed-after-eof:" + where, "", labels=labels)
-        if sess is not None and sess.resumable:
+        if usable(sess):
             return bad("resumable-after-abrupt-close:" + where, "",
                        labels=labels)
         return good(labels=labels)
@@ -479,7 +486,7 @@ def check_data(case):
                 final.exc.description == desc):
             return bad("fatal-alert-not-surfaced:" + where, fs,
                        labels=labels)
-        if sess is not None and sess.resumable:
+        if usable(sess):
             return bad("resumable-after-fatal-alert:" + where, "",
                        labels=labels)
         if not rconn.closed:
@@ -532,7 +539,7 @@ def fatal_then_send(case, p, sender, reader, labels):
                    "send_keyupdate_request raised %s but the connection is "
                    "still open" % fs, labels=labels)
     sess = rconn.session
-    if sess is not None and sess.resumable:
+    if usable(sess):
         return bad("resumable-after-failed-send:tls13", fs, labels=labels)
     o3 = sc.do_write(p, reader, b"late")
     if not (o3.state == "exc" and isinstance(o3.exc,
